@@ -106,6 +106,10 @@ func drawReply(t *rapid.T, maxBulk, depth int, top bool) []byte {
 	case 0:
 		return []byte("+OK\r\n")
 	case 1:
+		if rapid.IntRange(0, 2).Draw(t, "okprefix") == 0 {
+			// status lines that merely begin like the common ones
+			return []byte("+" + rapid.SampledFrom([]string{"OK 3 entries flushed", "OKAY", "OK ", "OK\t", "PONG!", "QUEUEDx", "O", "ok"}).Draw(t, "nearok") + "\r\n")
+		}
 		return []byte("+" + rapid.StringMatching(`[ -~]{0,30}`).Draw(t, "status") + "\r\n")
 	case 2:
 		if top {
